@@ -285,8 +285,8 @@ def read_env(src, expr, skip_envs=(), tolerance=0, mode=MODE_NON_MATH):
     contents = []
     while src.hasNext():
         if src.peek().category == TC.Escape:
-            name, args = make_read_peek(read_command)(
-                src, skip=1, tolerance=tolerance, mode=mode)
+            name, args = make_read_peek(read_env_end)(
+                src, tolerance=tolerance, mode=mode)
             if name == 'end':
                 break
         contents.append(read_expr(src, skip_envs=skip_envs, tolerance=tolerance, mode=mode))
@@ -294,9 +294,30 @@ def read_env(src, expr, skip_envs=(), tolerance=0, mode=MODE_NON_MATH):
     if error and tolerance == 0:
         unclosed_env_handler(src, expr, src.peek((0, 6)))
     elif not error:
-        src.forward(5)
+        read_env_end(src, tolerance=tolerance, mode=mode)
     expr.append(*contents)
     return expr
+
+
+def read_env_end(src, tolerance=0, mode=MODE_NON_MATH):
+    r"""Read a command name and, if one follows, a single brace group.
+
+    Used to recognize and to consume ``\end{name}``: nothing beyond the name
+    group belongs to the end of an environment. Assumes the escape has not
+    been parsed yet.
+
+    :param Buffer src: a buffer of tokens
+    :param int tolerance: error tolerance level (only supports 0 or 1)
+    :param str mode: math or not math mode
+    :return: command name and a list with at most one brace group
+    """
+    name, args = read_command(src, 0, 0, skip=1, tolerance=tolerance, mode=mode)
+    spacer = read_spacer(src)
+    if src.hasNext() and src.peek().category == TC.GroupBegin:
+        args.append(read_arg(src, next(src), tolerance=tolerance, mode=mode))
+    elif spacer:
+        src.backward(1)
+    return name, args
 
 
 ############
